@@ -384,6 +384,15 @@ Definition relpath (fl : flavour) (p start : path) (prefix : str) (loc : bool) :
        if negb (is_nil prefix) && str_eqb rel dot then Some prefix
        else Some (l (posix_join prefix rel)).
 
+(* tools/copy_file.py Symlink.transform_input: the link target of a symbolic-link copy is the input relative to the
+   directory of the link; None = the ValueError branch (no parent, or different roots: the input path is handed over
+   as it is) *)
+Definition symlink_target (fl : flavour) (input output : path) : option str :=
+  match parent output with
+  | Some d => relpath fl input d [] true          (* localize=True is relpath's default *)
+  | None => None
+  end.
+
 Definition reroot (p : path) (r : root) : option path :=
   mk (suffix_str p) (RRoot r) (Some (p_destdir p)) (Some (p_dir p)).
 
